@@ -146,6 +146,11 @@ func addReflectIntrinsics(m map[string]intrinsicFn) {
 	m["reflect.TypeOf"] = func(fr *frame, a []value) value {
 		return fr.p.mkRtype(a[0].(iface).t)
 	}
+	ptrTo := func(fr *frame, a []value) value {
+		return fr.p.mkRtype(types.NewPointer(a[0].(iface).v.(rtype).t))
+	}
+	m["reflect.PtrTo"] = ptrTo
+	m["reflect.PointerTo"] = ptrTo
 	m["reflect.ValueOf"] = func(fr *frame, a []value) value { return fr.p.rvalueOf(a[0]) }
 	m["(reflect.Value).Kind"] = func(fr *frame, a []value) value {
 		rv := a[0].(rvalue)
